@@ -144,4 +144,12 @@ CLAIMS['C18'] = {
   'note': 'Modelled not verified: pysam VCF parsing and tabix fetch (abstraction compared with pysam\'s view of every generated record), gzip/text codec, dict/set semantics. Assumes indexed VCF with >= 1 sample '
           'column, region_start/end None, sample names without blanks/commas, VCF unchanged between runs, and - for histories mixing settings - no two (contig, settings) pairs mapping to one cache '
           'file name (checked per history). The monomorphic rule re-admitting multi-base sites is specified as coded. No translator tie (K only).'}
+CLAIMS['C15'] = {
+  'technique': 'Coq proof (state-machine invariant over generate_partial_reads, MD encoder/reader round trip, QArith arg-max) about an executable model + correspondence through pysam re-parse of every produced record',
+  'text': 'For every read set the consensus records of the model of deduplicate_majority align exactly the sorted distinct covered positions (M over runs, N over gaps, split exactly at gaps > max_N_span, '
+          'well-formed CIGARs), |seq| = sum of M, the MD tag read against the sequence reconstructs the reference over the aligned positions, each base is the unique arg-max of the exact likelihoods '
+          '(N on a tie), and SM/RX/DS/TF are the molecule\'s; tied to Molecule.deduplicate_majority / write_pysam(consensus=True) / bamtagmultiome --consensus by running both on generated molecules.',
+  'note': 'PARTIAL: IEEE rounding of np.power/np.prod/division is not modelled (exact rationals over the implementation\'s own float table; calls compared only when the two best likelihoods are equal '
+          'with order-insensitive products or > 2^-20 apart; excluded calls counted in evidence). Modelled not verified: pysam/htslib record construction and BAM round trip, Counter.most_common, '
+          'consecutive_groups; phred quality values of the consensus are outside the model (only their count). Assumes a reference is attached, one contig, qualities 0..93.'}
 NOT_APPLICABLE = {}
